@@ -1,0 +1,128 @@
+//! Read-only projections of the store state for the external verification
+//! harness (`--cfg feoxdb_verif`).
+
+use std::sync::atomic::Ordering;
+use std::sync::Arc;
+
+use super::FeoxStore;
+
+#[derive(Clone, Debug)]
+pub struct VerifRecord {
+    pub key: Vec<u8>,
+    pub timestamp: u64,
+    pub ttl_expiry: u64,
+    pub value_len: usize,
+    pub sector: u64,
+    pub resident: bool,
+    pub deferred: bool,
+    pub refcount: u32,
+    pub addr: usize,
+}
+
+fn project(record: &Arc<crate::core::record::Record>) -> VerifRecord {
+    VerifRecord {
+        key: record.key.clone(),
+        timestamp: record.timestamp,
+        ttl_expiry: record.ttl_expiry.load(Ordering::Acquire),
+        value_len: record.value_len,
+        sector: record.sector.load(Ordering::Acquire),
+        resident: record.value.read().is_some(),
+        deferred: record.value_source().is_some(),
+        refcount: record.refcount.load(Ordering::Acquire),
+        addr: Arc::as_ptr(record) as usize,
+    }
+}
+
+impl FeoxStore {
+    pub fn verif_record(&self, key: &[u8]) -> Option<VerifRecord> {
+        self.hash_table.read(key, |_, record| project(record))
+    }
+
+    /// Every generation the hash index holds, sorted by key.
+    pub fn verif_snapshot(&self) -> Vec<VerifRecord> {
+        let mut out = Vec::new();
+        self.hash_table.scan(|_, record| out.push(project(record)));
+        out.sort_by(|a, b| a.key.cmp(&b.key));
+        out
+    }
+
+    /// Keys of the ordered index with the generation each slot points at.
+    pub fn verif_tree(&self) -> Vec<VerifRecord> {
+        let guard = &crossbeam_epoch::pin();
+        self.tree
+            .iter()
+            .map(|entry| project(entry.value().load(guard)))
+            .collect()
+    }
+
+    pub fn verif_free_runs(&self) -> Vec<(u64, u64)> {
+        self.free_space.read().verif_runs()
+    }
+
+    pub fn verif_free_stats(&self) -> (u64, u64, usize) {
+        let free_space = self.free_space.read();
+        (
+            free_space.get_total_free(),
+            free_space.get_largest_free_chunk(),
+            free_space.get_free_chunks_count(),
+        )
+    }
+
+    pub fn verif_disk_usage(&self) -> u64 {
+        self.stats.disk_usage.load(Ordering::Relaxed)
+    }
+
+    pub fn verif_keys_with_ttl(&self) -> u64 {
+        self.stats.keys_with_ttl.load(Ordering::Relaxed) as u64
+    }
+
+    pub fn verif_cache_memory(&self) -> usize {
+        self.stats.cache_memory.load(Ordering::Relaxed)
+    }
+
+    pub fn verif_cache(&self) -> Option<&Arc<crate::core::cache::ClockCache>> {
+        self.cache.as_ref()
+    }
+
+    /// Cache entries for `key`: (value length, tagged with the current generation).
+    pub fn verif_cache_entries_for(&self, key: &[u8]) -> Vec<(usize, bool)> {
+        let current = self
+            .hash_table
+            .read(key, |_, record| Arc::as_ptr(record) as usize)
+            .unwrap_or(0);
+        match self.cache.as_ref() {
+            None => Vec::new(),
+            Some(cache) => cache
+                .verif_entries()
+                .into_iter()
+                .filter(|entry| entry.key == key)
+                .map(|entry| (entry.value_len, entry.tag != 0 && entry.tag == current))
+                .collect(),
+        }
+    }
+
+    pub fn verif_format_version(&self) -> u32 {
+        self.format_version
+    }
+
+    pub fn verif_device_size(&self) -> u64 {
+        self.device_size
+    }
+
+    pub fn verif_clock_shard(&self, key: &[u8]) -> usize {
+        self.version_clock.shard_index(key)
+    }
+
+    pub fn verif_clock_value(&self, key: &[u8]) -> u64 {
+        self.version_clock.shard(key).load(Ordering::Relaxed)
+    }
+
+    pub fn verif_record_overhead() -> usize {
+        std::mem::size_of::<crate::core::record::Record>()
+    }
+
+    /// One sampling pass of the TTL sweeper over up to `sample_size` keys.
+    pub fn verif_sweep_once(self: &Arc<Self>, sample_size: usize) -> (u64, u64) {
+        crate::core::ttl_sweep::verif_sample_and_expire(self, sample_size)
+    }
+}
